@@ -84,15 +84,33 @@ def build_harness(release=False):
     return p.returncode == 0, p.stdout
 
 
+def build_harness_without_table_hook():
+    """Second attempt when the harness does not build: without the compression-table hook (cfg simple_dns_verif_table), which
+    depends on the shape of a private data structure. Own target directory, so the two builds do not evict each other."""
+    h = os.path.join(VERIF, "harness")
+    env = dict(ENV)
+    env["RUSTFLAGS"] = "--cfg simple_dns_verif -A unexpected_cfgs"
+    env["CARGO_TARGET_DIR"] = os.path.join(BUILD, "cargo-target-notable")
+    p = subprocess.run("cargo build --offline", shell=True, cwd=h, env=env, stdout=subprocess.PIPE, stderr=subprocess.STDOUT, text=True, timeout=1200)
+    return p.returncode == 0, p.stdout, os.path.join(BUILD, "cargo-target-notable", "debug", "impldrv")
+
+
 def build_all(release=False):
     with BuildLock():
         ok, out = build_coq()
         coq_ok, coq_out = ok, out
         ok2, out2 = build_modeldrv() if coq_ok or os.path.exists(os.path.join(COQ, "model.ml")) else (False, "no model.ml")
         ok3, out3 = build_harness()
-        if release and ok3:
+        table = (True, "")
+        impldrv = IMPLDRV
+        if not ok3:
+            ok4, out4, path = build_harness_without_table_hook()
+            if ok4:
+                table = (False, out3)
+                ok3, out3, impldrv = True, out4, path
+        if release and ok3 and table[0]:
             ok3, out3 = build_harness(release=True)
-    return {"coq": (coq_ok, coq_out), "modeldrv": (ok2, out2), "harness": (ok3, out3)}
+    return {"coq": (coq_ok, coq_out), "modeldrv": (ok2, out2), "harness": (ok3, out3), "table_hook": table, "impldrv": impldrv}
 
 
 def proof_audit(pid):
